@@ -3,7 +3,7 @@ from functools import partial
 
 from . import engine
 from .rules import (tables, errflow, stop, scope, fold, hashorder, eqfield, cast, lock, witness, orpat, guard, parsepure,
-                    kernel, evalorder, layer, export, panic, misc, pairflowrule, variant, folddrop)
+                    kernel, evalorder, layer, export, panic, misc, pairflowrule, variant, folddrop, queryguard)
 
 TRUST = ["rustc: type checking, MIR construction, Instance resolution, auto traits",
          "pest / pest_meta: PEG semantics, silent/atomic rule semantics, PrattParser precedence climbing",
@@ -34,10 +34,11 @@ def scope_prefix(*prefixes):
 
 KERNEL_SCOPE = scope_prefix("instruction::bin_op::", "instruction::prefix_op::", "<instruction::bin_op::")
 INDEX_SCOPE = scope_prefix("instruction::at::", "instruction::slicing::", "<instruction::slicing::", "stdlib::len")
+FOLD_SCOPE = lambda bid: "create_from_instruction" in bid or bid.endswith("Recreate>::recreate") or bid.endswith("::recreate")
 STDLIB_SCOPE = scope_prefix("stdlib::", "<stdlib::", "variable::try_from::", "<variable::Variable as std::convert::From<std::io")
 
 prop("C01",
-     [guard.run, guard.run_mustcall, misc.run_fnexit, misc.run_looptype, misc.run_slicetype, fold.run, scope.run],
+     [guard.run, guard.run_mustcall, misc.run_fnexit, misc.run_looptype, misc.run_slicetype, misc.run_celltype, queryguard.run, fold.run, scope.run],
      "Decides the structural half of type soundness: all 43 static checks the soundness argument leans on exist, are tested "
      "before every success value of their creation function and cannot be bypassed (R-GUARD, R-MUSTCALL); falling off a function "
      "body yields () and MissingReturn stands in front of that for non-() functions (R-FNEXIT); the Type queries that compute "
@@ -47,7 +48,7 @@ prop("C01",
      "guard conditions are taken as written (a weakened but present condition is not detected)")
 
 prop("C02",
-     [partial(panic.run, name="R-PANIC"), errflow.run, stop.run, scope.run, orpat.run, lock.run, guard.run_execerror, variant.run, guard.run_mustcall, misc.run_looptype],
+     [partial(panic.run, name="R-PANIC"), errflow.run, stop.run, scope.run, orpat.run, lock.run, guard.run_execerror, variant.run, guard.run_mustcall, misc.run_looptype, layer.run],
      "Decides: the complete inventory of panic-capable sites (383 today) is matched per function and signature to a reviewed "
      "justification naming the check that discharges it (R-PANIC); no error or control signal is dropped (R-ERRFLOW); ExecStop is "
      "raised and caught only where the control-flow table says, with the documented routing (R-STOP); no callee declares into the "
@@ -59,7 +60,7 @@ prop("C02",
      "a frozen table turns every NEW panic-capable site into an alarm by design")
 
 prop("C03",
-     [pairflowrule.run, tables.run_dispatch, tables.run_precedence, partial(panic.run, name="R-PANIC"), guard.run_mustcall, fold.run, errflow.run, parsepure.run, variant.run],
+     [pairflowrule.run, tables.run_dispatch, tables.run_precedence, partial(panic.run, name="R-PANIC"), guard.run_mustcall, queryguard.run, fold.run, errflow.run, parsepure.run, variant.run],
      "Decides: every alternative the grammar can hand to a pair-walking function has an arm there (R-TABLES-D: primary, line/stm/"
      "body, type, match_arm, int, var_from_str) and every operator rule is registered in the Pratt parser (R-TABLES); every "
      "panic-capable site on the parse path is a reviewed row (R-PANIC); Type queries are guarded by their admissibility test "
@@ -72,7 +73,8 @@ prop("C03",
      "stack / memory exhaustion excluded by the property")
 
 prop("C04",
-     [parsepure.run, kernel.run, guard.run_execerror, misc.run_retain, folddrop.run],
+     [parsepure.run, kernel.run, guard.run_execerror, misc.run_retain, folddrop.run,
+      partial(panic.run, scope=FOLD_SCOPE, name="R-PANIC"), cast.run],
      "Decides: folding cannot have effects, create cells or run user code (R-PARSEPURE: no path from parse / create / recreate to "
      "Exec::exec; cells built only by Mut::exec / of_type); the fold route and the run route of every operator end in the same "
      "kernel function (R-KERNEL, 62 rows); the early-error arms of the fold path raise only the variant the kernel raises "
@@ -135,7 +137,7 @@ prop("C12",
      "who-constructs / who-matches on ExecStop, CFG routing checks", "")
 
 prop("C13",
-     [parsepure.run, partial(witness.run, only=("W3MutNotClone",)), lock.run, guard.run_mustcall,
+     [parsepure.run, misc.run_celltype, partial(witness.run, only=("W3MutNotClone",)), lock.run, guard.run_mustcall,
       partial(guard.run, only_variants=("WrongInitialization", "CannotDo2")), fold.run, evalorder.run],
      "Decides: a cell is built only by executing `mut` (or as a type default), never while parsing/folding (R-PARSEPURE); Mut is "
      "not Clone, Variable::Mut holds Arc<Mut> (witness); assign::can_be_used asks mut_element_type and Type::matches, "
@@ -152,7 +154,7 @@ prop("C14",
      "docs/operators.md is the documented table; four operators it omits are placed as the property statement says")
 
 prop("C16",
-     [partial(witness.run, only=("W1SendSync",)), orpat.run_unsafe, lock.run, lock.run_global],
+     [partial(witness.run, only=("W1SendSync",)), orpat.run_unsafe, lock.run, lock.run_global, parsepure.run],
      "Decides: Code, Variable, Function, Type, Mut, Interpreter<'static> are Send + Sync (compile-pass witness with a failing twin); "
      "no user-written unsafe in any workspace crate (HIR scan), so data-race freedom is rustc's guarantee; every static is "
      "immutable after initialisation (R-GLOBAL); compound assignment is one write-guard region (=> N increments add N), no lock is "
@@ -185,7 +187,7 @@ prop("C19",
      "field-projection and callee inspection of the PartialEq impls", "")
 
 prop("C20",
-     [partial(tables.run_dispatch, only=("var_from_str", "int")), misc.run_render, partial(panic.run, scope=scope_prefix("<variable::Variable as std::convert::TryFrom<pest", "<variable::Variable as std::str::FromStr"), name="R-PANIC"), cast.run],
+     [partial(tables.run_dispatch, only=("var_from_str", "int")), misc.run_render, partial(panic.run, scope=scope_prefix("<variable::Variable as std::convert::TryFrom<pest", "<variable::Variable as std::str::FromStr"), name="R-PANIC"), cast.run, misc.run_escapes],
      "Decides the table clauses: every alternative of the value-literal grammar has a constructor arm in Variable::try_from(Pair); "
      "int literal forms are parsed with radix 2/8/10/16 matching their prefixes and overflow is an Err; arrays / tuples render "
      "elements through Variable::debug and debug uses {:?} for int / float / string. The print/parse round trip itself (escaping, "
